@@ -358,7 +358,7 @@ def coq_eval_files(ctx, files, timeout=600):
         paths.append(p)
 
     def one(p):
-        rc, out = sh(["timeout", str(timeout), "coqc", "-noglob", "-Q", COQ, "SV", "-w", "none", p], cwd=d, timeout=timeout + 30)
+        rc, out = sh("ulimit -v 6000000; exec timeout %d coqc -noglob -Q %s SV -w none %s" % (timeout, COQ, p), cwd=d, timeout=timeout + 30)
         for ext in (".vo", ".vok", ".vos"):
             try:
                 os.remove(p[:-2] + ext)
